@@ -3,7 +3,7 @@ import TunnoxModel.Spec.C12
 /-!
 Line protocol for C12.
 
-  tcp A [<kind cw|same|split|none>] <eof|err> <fused 0|1> <wfail n|-> <closeOnTail 0|1> <k> <bytes>*k  B … (same) …  s <schedule over a,b,A,B,x,y | ->
+  tcp A [<kind cw|same|split|none>] <eof|err|hold> <fused 0|1> <wfail n|-> <closeOnTail 0|1> <k> <bytes>*k  B … (same) …  s <schedule over a,b,A,B,x,y | ->
   udp U <eof|err|hold> <k> (<bytes>|t)*k  T <eof|err|hold> <fused> tds <k> <bytes>*k cut <n> junk <bytes> ch <k> <size>*k  s <schedule over u,t,U,T,w,v | ->
   (capital = the Write issued by this step stays in progress; x/y resp. w/v = it completes)
 
@@ -56,7 +56,7 @@ def kindOf : String → Option Kind
 
 def parseEPk (kind : Kind) : List String → Option (EP × List String)
   | tl :: fu :: wf :: cot :: k :: ts => do
-    let tail ← tailOfString tl
+    let tail ← tlOf tl
     let fused ← bitOf fu
     let wfail ← (if wf == "-" then some none else wf.toNat?.map some)
     let cot ← bitOf cot
@@ -83,7 +83,7 @@ def udpSched (s : String) : Option (List UTok) :=
   if s == "-" then some [] else
   s.toList.mapM (fun c => match c with
     | 'u' => some UTok.u | 't' => some UTok.t | 'U' => some UTok.uh | 'T' => some UTok.th
-    | 'w' => some UTok.w | 'v' => some UTok.v | _ => none)
+    | 'w' => some UTok.w | 'v' => some UTok.v | 's' => some UTok.s | _ => none)
 
 structure TcpCase where
   a : EP
@@ -130,8 +130,8 @@ structure UdpLine where
   sizes : List Nat
   sched : List UTok
 
-def parseUdp : List String → Option UdpLine
-  | "udp" :: "U" :: ut :: k :: ts => do
+def parseUdpBody : List String → Option UdpLine
+  | "U" :: ut :: k :: ts => do
     let utail ← tlOf ut
     let k ← k.toNat?
     let (uevs, ts) ← parseUEvs k ts
@@ -155,6 +155,13 @@ def parseUdp : List String → Option UdpLine
         | _ => none
       | _ => none
     | _ => none
+  | _ => none
+
+/-- `udp …`: scripted doubles on both sides; `udpv …`: the local side is the real asynchronous
+`mapping.UDPVirtualConn` (token `s` = its send loop sends the next queued datagram). -/
+def parseUdp : List String → Option UdpLine
+  | "udp" :: ts => parseUdpBody ts
+  | "udpv" :: ts => parseUdpBody ts
   | _ => none
 
 def UdpLine.case (l : UdpLine) : UdpCase :=
@@ -236,6 +243,10 @@ def runModel (ts : List String) : String :=
     match parseUdp ts with
     | some l => udpObsStr (udpObs (udpRun .repaired l.case (udpComplete l.case l.sched)))
     | none => "bad-case"
+  | "udpv" :: _ =>
+    match parseUdp ts with
+    | some l => udpObsStr (udpObsV (udpRun .repaired l.case (udpComplete l.case l.sched)))
+    | none => "bad-case"
   | "s5" :: _ =>
     match parseS5Line ts with
     | some l =>
@@ -255,6 +266,13 @@ def runHolds (caseToks obsToks : List String) : String :=
       | none => "false"
     | none => "bad-case"
   | "udp" :: _ =>
+    match parseUdp caseToks with
+    | some l =>
+      match parseUdpObs obsToks with
+      | some o => boolStr (holdsUdp l.spec o)
+      | none => "false"
+    | none => "bad-case"
+  | "udpv" :: _ =>
     match parseUdp caseToks with
     | some l =>
       match parseUdpObs obsToks with
